@@ -270,7 +270,7 @@ class World:
                 return
         self.put_graph(dst, m, real, [], self.new_family())
         self.stats["bulk_graphs"] += 1
-        self.stats["bulk_atoms_max"] = max(self.stats["bulk_atoms_max"], n)
+        self.stats["bulk_atoms_total"] += n
         self.coherent(dst, {"C09"}, "bulk")
 
     def op_spec(self, op):
